@@ -241,3 +241,7 @@ package blockstore
 
 //@ func (*ReadWrite).Roots
 //@   call[ReadOnly.Roots#0] assert delegates [C07]: true
+
+//@ func maybeReportError
+//@   note hands the error to the handler found in the context, if any; touches nothing else
+//@   ensures any [C08]: true
